@@ -100,6 +100,8 @@ def _ground_terms(fml):
     """ground (closed) Ref consts, Int consts, and ground terms of sort
     Array(Int, Ref) / Array(Ref,Int)-selects found in fml."""
     refs, ints, arrs, lens = {}, {}, {}, {}
+    atoms = _ATOMS
+    atoms.clear()
     seen = set()
 
     def visit(e, bound):
@@ -121,6 +123,8 @@ def _ground_terms(fml):
                         refs[e.get_id()] = e
                     elif s == z3.IntSort():
                         ints[e.get_id()] = e
+                    elif s.name() == "Atom":
+                        atoms[e.get_id()] = e
                 if s.kind() == z3.Z3_ARRAY_SORT and s.domain() == z3.IntSort() and \
                         s.range().name() == "Ref" and not z3.is_quantifier(e) \
                         and e.decl().kind() != z3.Z3_OP_STORE:
@@ -135,6 +139,7 @@ def _ground_terms(fml):
 
 
 _hv_cache = {}
+_ATOMS = {}
 
 
 def _has_var(e):
@@ -151,7 +156,23 @@ def _has_var(e):
     return r
 
 
+def _atom_vals(sort):
+    vals = list(_ATOMS.values())[:5]
+    vals += [z3.Const(f"atom!extra{i}", sort) for i in range(2)]
+    return vals
+
+
+class _Budget(Exception):
+    pass
+
+
+_budget = [0]
+
+
 def _expand(e, int_vals, ref_vals, depth=0):
+    _budget[0] -= 1
+    if _budget[0] < 0:
+        raise _Budget()
     if z3.is_quantifier(e):
         if e.is_lambda():
             return e
@@ -163,6 +184,8 @@ def _expand(e, int_vals, ref_vals, depth=0):
                 doms.append(int_vals)
             elif s.name() == "Ref":
                 doms.append(ref_vals)
+            elif s.name() == "Atom":
+                doms.append(_atom_vals(s))
             else:
                 return e
         import itertools as it
@@ -206,7 +229,13 @@ def refute(ob, bound=3, timeout_ms=20000, extra=()):
     if null is not None and not any(r.eq(null) for r in ref_vals):
         ref_vals.append(null)
     ref_vals = ref_vals[:24]
-    qf = _expand(fml, int_vals, ref_vals)
+    _budget[0] = 200000
+    try:
+        qf = _expand(fml, int_vals, ref_vals)
+    except _Budget:
+        if bound > 1:
+            return refute(ob, bound - 1, timeout_ms, extra)
+        return None
     s = z3.Solver()
     s.set("timeout", timeout_ms)
     s.add(qf)
